@@ -159,6 +159,8 @@ OPAQUE_METHODS = {
     ("RhsV", "edges"): (("seq", "Edge"), lambda t: RuleV.f_edges(t)),
     ("RhsV", "nodes"): (("seq", "Node"), lambda t: RuleV.f_nodes(t)),
     ("Domain", "size"): ("int", lambda t: dom_size(t)),
+    # a rule snapshot copies to an equal snapshot (HRGRule.copy is verified separately: equal lhs and rhs tables)
+    ("RuleV", "copy"): ("RuleV", lambda t: t),
 }
 
 pv_of_str = z3.Function("pv_of_str", Str, PyVal)          # a str as a generic Python value (injective)
